@@ -1099,9 +1099,59 @@ def _run_PW(res):
                           dict(layer="PW", T=T, cfg=cfg), observed=o, expected=v)
 
 
+def _run_SC(res):
+    """user subclasses of the parameter sets that override the hooks the conversion is written in terms of (Ea_over_R; dH_over_R,
+    kB_h_times_exp_dS_R) together with the matching __call__: the rate expression of a reaction carrying such a set is the set's
+    own value at T times the concentration product"""
+    import math
+    from chempy import Reaction
+    from chempy.kinetics.arrhenius import ArrheniusParam
+    from chempy.kinetics.eyring import EyringParam
+
+    class ActivationTemperature(ArrheniusParam):  # the second field holds Ta = Ea/R in kelvin
+        def Ea_over_R(self, constants=None, units=None, backend=None):
+            return self.Ea
+
+        def __call__(self, T, constants=None, units=None, backend=None):
+            return self.A * (backend or math).exp(-self.Ea / T)
+
+    class ReducedEyring(EyringParam):  # dH holds dH/R in kelvin, dS holds dS/R (dimensionless)
+        def dH_over_R(self, constants=None, units=None, backend=None):
+            return self.dH
+
+        def kB_h_times_exp_dS_R(self, constants=None, units=None, backend=math):
+            return 2.083661912e10 * backend.exp(self.dS)
+
+        def __call__(self, T, constants=None, units=None, backend=None):
+            return 2.083661912e10 * T * math.exp(self.dS) * math.exp(-self.dH / T)
+
+    conc = {"NO2": 0.03, "CO": 1.7}
+    cprod = 0.03 ** 2 * 1.7
+    res.sample(dict(layer="SC", reaction="2 NO2 + CO -> 2 NO + CO2", T=[250.0, 298.15, 700.0, 1900.0]), limit=1)
+    for cname, mk in (("ArrheniusParam", lambda: ArrheniusParam(3.3e9, 58e3)), ("subclass-of-ArrheniusParam(Ea_over_R)", lambda: ActivationTemperature(3.3e9, 6975.0)),
+                      ("EyringParam", lambda: EyringParam(40e3, -20.0)), ("subclass-of-EyringParam(dH_over_R,kB_h_times_exp_dS_R)", lambda: ReducedEyring(4800.0, -2.4))):
+        for T in (250.0, 298.15, 700.0, 1900.0):
+            res.states += 1
+            res.transitions += 1
+            res.evaluations += 1
+            res.nontrivial += 1
+            try:
+                ps = mk()
+                rxn = Reaction({"NO2": 2, "CO": 1}, {"NO": 2, "CO2": 1}, ps)
+                o = float(rxn.rate_expr()(dict(conc, temperature=T), reaction=rxn))
+                ref = float(ps(T)) * cprod
+            except Exception as ex:
+                o, ref = _exc_tag(ex), None
+            ok = not isinstance(o, str) and abs(o - ref) <= 1e-11 * abs(ref)
+            res.outcomes["SC:%s" % ("agrees" if ok else "DIFFERS")] += 1
+            if not ok:
+                res.violation("C16|%s|rate-expression-of-reaction|differs-from-value-times-concentration-product" % cname, "Reaction(2 NO2 + CO -> ..., %s).rate_expr() at T=%r: %r, parameter set at T times concentration product: %r" % (
+                    cname, T, o, ref), dict(layer="SC", cname=cname, T=T), observed=o, expected=ref)
+
+
 # =============================================================================================== chunks
 def chunks(tier):
-    out = [("P", "arrhenius"), ("P", "eyring"), ("W",), ("PW",)]
+    out = [("P", "arrhenius"), ("P", "eyring"), ("W",), ("PW",), ("SC",)]
     out += [("X", i) for i in range(_N_XSPECS)]
     n = N_TCHUNK[tier]
     out += [("T", j, n) for j in range(n)]
@@ -1121,6 +1171,8 @@ def run_chunk(chunk, tier):
         _run_W(res)
     elif kind == "PW":
         _run_PW(res)
+    elif kind == "SC":
+        _run_SC(res)
     elif kind == "X":
         specs = _x_specs()
         assert len(specs) == _N_XSPECS, len(specs)
@@ -1148,6 +1200,8 @@ def replay(case):
         _run_W(res)
     elif layer == "PW":
         _run_PW(res)
+    elif layer == "SC":
+        _run_SC(res)
     else:
         spec = [s for s in _x_specs() if s["name"] == case["spec"]][0]
         _run_X(res, spec)
